@@ -478,7 +478,9 @@ int parse_instruction_6502(AsmContext *asm_context, char *instr)
                 return -1;
               }
 
-              offset = address - (asm_context->address + 2);
+              // The offset of the three byte instructions bbr / bbs is
+              // relative to the address of the next instruction.
+              offset = address - (asm_context->address + 3);
             }
 
             op = OP_ADDRESS8_RELATIVE;
